@@ -93,24 +93,31 @@ class Executor(ResolutionContext):
             Instrumentation() if instrumentation is None else instrumentation
         )
         self.runtime = runtime or BlockingRuntime()
-        self._default_resolver = schema.default_resolver or default_resolver
+        self._default_resolver = (
+            default_resolver
+            if schema.default_resolver is None
+            else schema.default_resolver
+        )
 
     def field_resolver(
         self, parent_type: ObjectType, field_definition: Field
     ) -> Resolver:
-        base = (
-            field_definition.resolver
-            or parent_type.default_resolver
+        # Resolvers are arbitrary callables: they may well be falsy, compare
+        # equal to one another or not be hashable at all, so they are told
+        # apart by identity only.
+        base = field_definition.resolver
+        if base is None:
+            base = parent_type.default_resolver
+        if base is None:
             # The schema wide default resolver is the application's: it is not
             # expected to know the objects behind the introspection types.
-            or (
+            base = (
                 default_resolver
                 if parent_type.name.startswith("__")
                 else self._default_resolver
             )
-        )
         try:
-            return self._resolver_cache[base]
+            return self._resolver_cache[id(base)][1]
         except KeyError:
             wrapped = (
                 self.runtime.wrap_callable(base)
@@ -120,7 +127,8 @@ class Executor(ResolutionContext):
             )
             if self._middlewares:
                 wrapped = apply_middlewares(wrapped, self._middlewares)
-            self._resolver_cache[base] = wrapped
+            # (the resolver is kept alongside so that its id stays its own)
+            self._resolver_cache[id(base)] = (base, wrapped)
             return wrapped
 
     def resolve_type(
